@@ -3,14 +3,297 @@
   are at the end of this file.
 -/
 import JP.Pointer
+import JP.Lemmas.Str
+import JP.Lemmas.Decimal
 namespace JP.Lemmas
 open JP JP.Pointer
+
+/-! ## Monadic plumbing -/
+
+theorem mapM_ok {ε α β} (f : α → Except ε β) (g : α → β) (xs : List α)
+    (h : ∀ x ∈ xs, f x = .ok (g x)) : xs.mapM f = .ok (xs.map g) := by
+  induction xs with
+  | nil => rfl
+  | cons x xs ih =>
+    rw [List.mapM_cons, h x (by simp), ih (fun y hy => h y (by simp [hy]))]
+    rfl
+
+theorem resolveParts_nil (doc : J) : resolveParts doc [] = .ok doc := rfl
+
+theorem resolveParts_cons_ok {doc w : J} {p : Part} (h : getitem doc p = .ok w) (ps : List Part) :
+    resolveParts doc (p :: ps) = resolveParts w ps := by
+  unfold resolveParts
+  rw [List.foldlM_cons, h]
+  rfl
+
+theorem resolveParts_cons_error {doc : J} {p : Part} {e : Err} (h : getitem doc p = .error e)
+    (ps : List Part) : resolveParts doc (p :: ps) = .error e := by
+  unfold resolveParts
+  rw [List.foldlM_cons, h]
+  rfl
+
+theorem resolveText_of_parse {dec : EscDec} {ue : Bool} {s : Str} {ps : List Part}
+    (h : parse dec ue s = .ok ps) (doc : J) : resolveText dec ue s doc = resolveParts doc ps := by
+  unfold resolveText
+  rw [h]
+  rfl
+
+/-! ## `_parse` on well-formed text -/
+
+theorem parse_nil (dec : EscDec) (ue : Bool) : parse dec ue [] = .ok [] := by
+  cases ue <;> rfl
+
+theorem parse_slash (dec : EscDec) (ue : Bool) (cs : Str)
+    (hb : ue = true → ('/' :: cs).contains '\\' = false) :
+    parse dec ue ('/' :: cs) =
+      (splitOn '/' ('/' :: cs)).tail.mapM (fun p => indexOf (unescapeTok p)) := by
+  unfold parse
+  cases ue with
+  | false =>
+    simp only [Bool.false_eq_true, if_false, pure_bind, lstrip_slash]
+    simp
+  | true =>
+    simp only [if_true]
+    rw [unicodeEscape_of_no_backslash dec (hb rfl)]
+    change (pure ('/' :: cs) >>= _) = _
+    simp only [pure_bind, lstrip_slash]
+    simp
+
+/-- The part `_index` makes of a token whose integer reading (if any) is within the limits. -/
+def tokPart (t : Str) : Part :=
+  match parseIndexToken t with
+  | none => .key t
+  | some i => .idx i
+
+/-- The integer reading of a token, if any, is within the pointer index limits. -/
+def TokInRange (t : Str) : Prop :=
+  ∀ i, parseIndexToken t = some i → minIntIndex ≤ i ∧ i ≤ maxIntIndex
+
+theorem indexOf_of_inRange {t : Str} (h : TokInRange t) : indexOf t = .ok (tokPart t) := by
+  unfold tokPart
+  cases hp : parseIndexToken t with
+  | none => exact indexOf_of_none hp
+  | some i => exact indexOf_of_some hp (h i hp).1 (h i hp).2
+
+theorem partStr_tokPart (t : Str) : partStr (tokPart t) = t := by
+  unfold tokPart
+  cases hp : parseIndexToken t with
+  | none => rfl
+  | some i => exact intStr_of_parseIndexToken hp
+
+theorem tokPart_natStr (n : Nat) : tokPart (natStr n) = .idx n := by
+  unfold tokPart
+  rw [parseIndexToken_natStr]
+
+theorem tokInRange_stepToken {p : Step} (h : StepInRange p) : TokInRange (stepToken p) := by
+  cases p with
+  | name k => exact h
+  | index n =>
+    intro i hi
+    simp only [stepToken, parseIndexToken_natStr, Option.some.injEq] at hi
+    subst hi
+    have e2 : minIntIndex = -9007199254740991 := by decide
+    refine ⟨?_, h⟩
+    rw [e2]; omega
+
+/-- Parsing the spelling of a token list gives back the tokens, each read by `_index`. -/
+theorem parse_spellTokens (dec : EscDec) (ue : Bool) (ts : List Str)
+    (hr : ∀ t ∈ ts, TokInRange t)
+    (hb : ue = true → (spellTokens ts).contains '\\' = false) :
+    parse dec ue (spellTokens ts) = .ok (ts.map tokPart) := by
+  cases ts with
+  | nil => exact parse_nil dec ue
+  | cons t ts =>
+    have hsp : spellTokens (t :: ts) = '/' :: (escapeTok t ++ spellTokens ts) := by
+      simp [spellTokens]
+    have htail : (splitOn '/' (spellTokens (t :: ts))).tail = (t :: ts).map escapeTok :=
+      splitOn_flatMap_tail escapeTok (t :: ts) (fun x _ => escapeTok_no_slash x)
+    rw [hsp] at hb htail ⊢
+    rw [parse_slash dec ue _ hb, htail]
+    rw [mapM_ok _ (fun e => tokPart (unescapeTok e))]
+    · simp only [List.map_map]
+      congr 1
+      apply List.map_congr_left
+      intro x _
+      simp [unescapeTok_escapeTok]
+    · intro e he
+      obtain ⟨x, hx, rfl⟩ := List.mem_map.mp he
+      rw [unescapeTok_escapeTok]
+      exact indexOf_of_inRange (hr x hx)
+
+/-! ## `_getitem`, case by case -/
+
+theorem getitem_obj_of_get {kvs : List (Str × J)} {p : Part} {v : J}
+    (h : dictGet kvs (partStr p) = some v) : getitem (.obj kvs) p = .ok v := by
+  cases p with
+  | idx i => simp only [partStr] at h; simp [getitem, h]; rfl
+  | key k => simp only [partStr] at h; simp [getitem, h]; rfl
+
+theorem getitem_obj_of_none {kvs : List (Str × J)} {p : Part}
+    (h : dictGet kvs (partStr p) = none)
+    (h1 : ∀ rest, partStr p ≠ '~' :: rest) (h2 : ∀ rest, partStr p ≠ '#' :: rest) :
+    getitem (.obj kvs) p = .error .ptrKey := by
+  cases p with
+  | idx i => simp only [partStr] at h; simp [getitem, h]; rfl
+  | key k =>
+    simp only [partStr] at h h1 h2
+    cases k with
+    | nil => simp [getitem, h]; rfl
+    | cons c rest =>
+      have hc1 : c ≠ '~' := fun e => h1 rest (by rw [e])
+      have hc2 : c ≠ '#' := fun e => h2 rest (by rw [e])
+      simp [getitem, h, hc1, hc2]; rfl
+
+theorem getitem_arr_idx_nat (xs : List J) (n : Nat) :
+    getitem (.arr xs) (.idx n) =
+      match xs[n]? with
+      | some v => .ok v
+      | none => .error .ptrIndex := by
+  have : pyListGet xs (n : Int) = xs[n]? := by simp [pyListGet]
+  simp only [getitem, this]
+  cases xs[n]? <;> rfl
+
+theorem getitem_arr_key_of_none {xs : List J} {k : Str} (hp : parseIndexToken k = none)
+    (h2 : ∀ rest, k ≠ '#' :: rest) :
+    ∃ e, getitem (.arr xs) (.key k) = .error e ∧ e.isPointerResolution = true := by
+  by_cases hd : k = ['-']
+  · subst hd; exact ⟨.ptrIndex, rfl, rfl⟩
+  · refine ⟨.ptrType, ?_, rfl⟩
+    unfold getitem
+    simp only [hd, if_false]
+    rw [indexOf_of_none hp]; rfl
+
+/-! ## Every node is reachable -/
+
+theorem getitem_step {doc v : J} {p : Step} {rest : List Step}
+    (h : valueAt doc (p :: rest) = some v) :
+    ∃ w, getitem doc (tokPart (stepToken p)) = .ok w ∧ valueAt w rest = some v := by
+  cases doc <;> cases p <;> simp only [valueAt, reduceCtorEq] at h
+  case arr.index xs n =>
+    cases hx : xs[n]? with
+    | none => simp [hx] at h
+    | some w =>
+      rw [hx] at h
+      refine ⟨w, ?_, h⟩
+      simp only [stepToken, tokPart_natStr, getitem_arr_idx_nat, hx]
+  case obj.name kvs k =>
+    cases hx : dictGet kvs k with
+    | none => simp [hx] at h
+    | some w =>
+      rw [hx] at h
+      refine ⟨w, ?_, h⟩
+      apply getitem_obj_of_get
+      simp only [stepToken, partStr_tokPart, hx]
+
+theorem resolveParts_spell (ps : List Step) :
+    ∀ (doc v : J), valueAt doc ps = some v →
+      resolveParts doc ((ps.map stepToken).map tokPart) = .ok v := by
+  induction ps with
+  | nil => intro doc v h; simp only [valueAt, Option.some.injEq] at h; subst h; rfl
+  | cons p ps ih =>
+    intro doc v h
+    obtain ⟨w, hw, hrest⟩ := getitem_step h
+    simp only [List.map_cons]
+    rw [resolveParts_cons_ok hw]
+    exact ih w v hrest
+
+/-! ## RFC 6901 conformance -/
+
+theorem nonext_facts {t : Str} (h : isExtensionToken t = false) :
+    (∀ rest, t ≠ '#' :: rest) ∧ (∀ rest, t ≠ '~' :: rest) ∧
+    (∀ i, parseIndexToken t = some i → 0 ≤ i ∧ i ≤ maxIntIndex) := by
+  unfold isExtensionToken at h
+  split at h
+  · cases h
+  · cases h
+  · rename_i h1 h2
+    refine ⟨fun rest e => h1 rest e, fun rest e => h2 rest e, ?_⟩
+    intro i hi
+    rw [hi] at h
+    simp only [Bool.or_eq_false_iff, decide_eq_false_iff_not] at h
+    omega
+
+theorem tokInRange_of_nonext {t : Str} (h : isExtensionToken t = false) : TokInRange t := by
+  intro i hi
+  have := (nonext_facts h).2.2 i hi
+  have e2 : minIntIndex = -9007199254740991 := by decide
+  rw [e2]; omega
+
+/-- One evaluation step: `_getitem` on the part made from a non-extension token agrees with
+    RFC 6901 section 4. -/
+theorem getitem_rfcStep (doc : J) {t : Str} (h : isExtensionToken t = false) :
+    match rfcStep doc t with
+    | some w => getitem doc (tokPart t) = .ok w
+    | none => ∃ e, getitem doc (tokPart t) = .error e ∧ e.isPointerResolution = true := by
+  obtain ⟨h1, h2, h3⟩ := nonext_facts h
+  cases doc with
+  | null | bool _ | int _ | flt _ | str _ => exact ⟨.ptrType, rfl, rfl⟩
+  | obj kvs =>
+    simp only [rfcStep]
+    cases hx : dictGet kvs t with
+    | some w => exact getitem_obj_of_get (by rw [partStr_tokPart, hx])
+    | none =>
+      refine ⟨.ptrKey, ?_, rfl⟩
+      apply getitem_obj_of_none <;> rw [partStr_tokPart]
+      · exact hx
+      · exact h2
+      · exact h1
+  | arr xs =>
+    simp only [rfcStep]
+    cases hp : parseIndexToken t with
+    | none =>
+      rw [isCanonNat_false_of_parseIndexToken_none hp]
+      simp only [Bool.false_eq_true, if_false]
+      have : tokPart t = .key t := by simp [tokPart, hp]
+      rw [this]
+      exact getitem_arr_key_of_none hp h1
+    | some i =>
+      obtain ⟨hc, hv, ht⟩ := canon_of_parseIndexToken_nonneg hp (h3 i hp).1
+      have hpart : tokPart t = .idx (digitsVal t : Nat) := by simp [tokPart, hp, hv]
+      rw [hc, hpart, getitem_arr_idx_nat]
+      simp only [if_true]
+      cases xs[digitsVal t]? with
+      | some w => rfl
+      | none => exact ⟨.ptrIndex, rfl, rfl⟩
+
+theorem resolveParts_rfcEval (ts : List Str) :
+    ∀ (doc : J), (∀ t ∈ ts, isExtensionToken t = false) →
+      match rfcEval doc ts with
+      | some v => resolveParts doc (ts.map tokPart) = .ok v
+      | none => ∃ e, resolveParts doc (ts.map tokPart) = .error e ∧ e.isPointerResolution = true := by
+  induction ts with
+  | nil => intro doc _; rfl
+  | cons t ts ih =>
+    intro doc hext
+    have hstep := getitem_rfcStep doc (hext t (by simp))
+    have hev : rfcEval doc (t :: ts) = (rfcStep doc t).bind (fun w => rfcEval w ts) := by
+      simp [rfcEval, List.foldlM_cons]
+    rw [hev]
+    simp only [List.map_cons]
+    cases hs : rfcStep doc t with
+    | none =>
+      rw [hs] at hstep
+      obtain ⟨e, he, hres⟩ := hstep
+      exact ⟨e, resolveParts_cons_error he _, hres⟩
+    | some w =>
+      rw [hs] at hstep
+      simp only [Option.bind_some]
+      rw [resolveParts_cons_ok hstep]
+      exact ih w (fun x hx => hext x (by simp [hx]))
+
+/-! ## Statements used by JP/Props/C04.lean -/
 
 theorem resolveText_spell (dec : EscDec) (ue : Bool) (doc v : J) (ps : List Step)
     (hat : valueAt doc ps = some v) (hr : ∀ p ∈ ps, StepInRange p)
     (hb : ue = true → (spell ps).contains '\\' = false) :
     resolveText dec ue (spell ps) doc = .ok v := by
-  sorry
+  have hparse : parse dec ue (spell ps) = .ok ((ps.map stepToken).map tokPart) := by
+    apply parse_spellTokens dec ue _ _ hb
+    intro t ht
+    obtain ⟨p, hp, rfl⟩ := List.mem_map.mp ht
+    exact tokInRange_stepToken (hr p hp)
+  rw [resolveText_of_parse hparse]
+  exact resolveParts_spell ps doc v hat
 
 theorem resolveText_conforms (dec : EscDec) (ue : Bool) (doc : J) (s : Str) (ts : List Str)
     (hs : rfcParse s = some ts) (hext : ∀ t ∈ ts, isExtensionToken t = false)
@@ -18,20 +301,42 @@ theorem resolveText_conforms (dec : EscDec) (ue : Bool) (doc : J) (s : Str) (ts 
     match rfcEval doc ts with
     | some v => resolveText dec ue s doc = .ok v
     | none => ∃ e, resolveText dec ue s doc = .error e ∧ e.isPointerResolution = true := by
-  sorry
+  have hparse : parse dec ue s = .ok (ts.map tokPart) := by
+    unfold rfcParse at hs
+    split at hs
+    · cases hs; exact parse_nil dec ue
+    · rename_i cs
+      simp only at hs
+      split at hs
+      · cases hs
+        rw [parse_slash dec ue cs hb]
+        rw [mapM_ok _ (fun e => tokPart (unescapeTok e))]
+        · simp only [List.map_map]; rfl
+        · intro e he
+          apply indexOf_of_inRange
+          apply tokInRange_of_nonext
+          exact hext _ (List.mem_map.mpr ⟨e, he, rfl⟩)
+      · cases hs
+    · cases hs
+  rw [resolveText_of_parse hparse]
+  exact resolveParts_rfcEval ts doc hext
 
 theorem getitem_primitive (doc : J) (p : Part) (h : doc.isContainer = false) :
     ∃ e, getitem doc p = .error e ∧ e.isPointerResolution = true := by
-  sorry
+  cases doc <;> simp [J.isContainer] at h <;> exact ⟨.ptrType, rfl, rfl⟩
 
 theorem getitem_dash_length (xs : List J) :
     (∃ e, getitem (.arr xs) (.key ['-']) = .error e ∧ e.isPointerResolution = true) ∧
     (∃ e, getitem (.arr xs) (.idx xs.length) = .error e ∧ e.isPointerResolution = true) := by
-  sorry
+  refine ⟨⟨.ptrIndex, rfl, rfl⟩, ⟨.ptrIndex, ?_, rfl⟩⟩
+  rw [getitem_arr_idx_nat]
+  simp
 
 theorem existsIn_spec (doc : J) (ps : List Part) :
     (∀ v, resolveParts doc ps = .ok v → existsIn doc ps = .ok true) ∧
     (∀ e, resolveParts doc ps = .error e → e.isPointerResolution = true → existsIn doc ps = .ok false) := by
-  sorry
+  constructor
+  · intro v h; simp [existsIn, h]; rfl
+  · intro e h he; simp [existsIn, h, he]; rfl
 
 end JP.Lemmas
